@@ -134,6 +134,10 @@ class Storage(Machine):
                          "sign": s.choice([None, None, "es-256", "eddsa"]),
                          "cid_pos": s.choice(["early", "late", "any", "any"]),
                          "big": s.chance(0.08), "payloads": s.choice([0, 0, 1, 2]),
+                         # bytes that look like the start of an installed-manifest component id, followed by the class
+                         # UUID of *another* role, placed before the real component id (as an image digest)
+                         "lookalike": s.choice([None, None, None, None, None, "nRF54H20_sample_rad", "nRF54H20_sample_root",
+                                                "unknown-class"]),
                          "features": [f for f in ["severed", "text", "params_all", "boundary", "version", "tryeach"]
                                       if s.chance(0.5)],
                          "gen": s.u64() % (1 << 48), "fmt": s.choice(["yaml", "json"])})
@@ -283,6 +287,15 @@ class Storage(Machine):
             sh.insert(0, {"suit-directive-override-parameters": {
                 "suit-parameter-vendor-identifier": {"RFC4122_UUID": e["vendor"]},
                 "suit-parameter-class-identifier": {"RFC4122_UUID": {"namespace": e["vendor"], "name": e["class"]}}}})
+            if e.get("lookalike"):
+                other = cose.vid_cid(NORDIC, e["lookalike"])[1]
+                fake = bytes.fromhex("05824c6b") + b"INSTLD_MFST" + b"\x50" + other  # 16 + 16 bytes: a SHA-256 sized value
+                sh.insert(1, {"suit-directive-override-parameters": {"suit-parameter-image-digest": {
+                    "suit-digest-algorithm-id": "cose-alg-sha-256", "suit-digest-bytes": fake.hex()}}})
+                cidv = man.pop("suit-manifest-component-id", None)
+                if cidv is not None:
+                    man["suit-manifest-component-id"] = cidv  # after suit-common, so the look-alike comes first
+                model["_extra"]["lookalike_envelopes"] = model["_extra"].get("lookalike_envelopes", 0) + 1
             if e["big"]:
                 man["suit-reference-uri"] = "http://example.com/" + "x" * s.choice([1100, 2300])
             rel = e["name"] + ".suit"
